@@ -67,6 +67,7 @@ type VerifSched struct {
 	events       chan schedEvent
 	choose       func(n int, label string, cost []int) int
 	readers      map[*fileStore]int
+	readerDepth  map[*fileStore]int // shared locks held by the session thread itself
 	writer       map[*fileStore]*schedThread
 	Trace        []VerifSchedEvent
 	Problems     []string
@@ -86,12 +87,17 @@ type VerifSched struct {
 	// LocksOnly: scheduling points only at lock operations, the header write and statement boundaries (for
 	// statements with thousands of row operations; the monitors still see every access and write)
 	LocksOnly bool
+	// LazyWindow: for statements that may end in an error without logging anything. A write inside the window is
+	// held back and becomes a problem only if the statement goes on to append to the log afterwards (then pages
+	// reached the data file before their log records); a statement that never logs has no log append to wait for.
+	LazyWindow bool
+	heldBack   []string
 }
 
 // VerifNewSched creates a scheduler; choose is the explorer's choice oracle.
 func VerifNewSched(choose func(n int, label string, cost []int) int, tickBudget int) *VerifSched {
 	return &VerifSched{byGoid: map[int64]*schedThread{}, events: make(chan schedEvent), choose: choose,
-		readers: map[*fileStore]int{}, writer: map[*fileStore]*schedThread{}, ticks: tickBudget}
+		readers: map[*fileStore]int{}, readerDepth: map[*fileStore]int{}, writer: map[*fileStore]*schedThread{}, ticks: tickBudget}
 }
 
 func (s *VerifSched) lookup() *schedThread {
@@ -171,7 +177,12 @@ func (s *VerifSched) write(t *schedThread, kind string) {
 	if s.stmtOpen && s.changed && !s.logged {
 		isOwnFlush := t.store == nil && s.stmtKind == "create"
 		if !isOwnFlush {
-			s.problem("write-inside-statement", "%s written by %s between the statement's first change and the completion of its log append (statement: %s)", kind, t.name, s.stmtKind)
+			msg := fmt.Sprintf("%s written by %s between the statement's first change and the completion of its log append (statement: %s)", kind, t.name, s.stmtKind)
+			if s.LazyWindow {
+				s.heldBack = append(s.heldBack, msg)
+			} else {
+				s.problem("write-inside-statement", "%s", msg)
+			}
 		}
 	}
 }
@@ -222,6 +233,9 @@ func (s *VerifSched) attach() {
 		s.record(t, kind)
 		switch kind {
 		case "rlock", "lock":
+			if kind == "rlock" && t.store == nil && s.readerDepth[f] > 0 {
+				s.problem("recursive-read-lock", "%s asks for the shared store lock while already holding it (statement: %s): the request blocks for ever as soon as the flusher asks for the exclusive lock in between", t.name, s.stmtKind)
+			}
 			s.yield(t, f, kind)
 		case "runlock", "unlock":
 			s.yield(t, f, kind)
@@ -284,6 +298,12 @@ func (s *VerifSched) attach() {
 		}
 		if t := s.lookup(); t != nil {
 			s.record(t, "walWrite")
+			if t.store == nil && s.stmtOpen {
+				for _, msg := range s.heldBack {
+					s.problem("write-inside-statement", "%s", msg)
+				}
+				s.heldBack = nil
+			}
 			if !s.LocksOnly {
 				s.yield(t, nil, "walWrite")
 			}
@@ -351,6 +371,7 @@ func (s *VerifSched) StatementBegin(kind string) {
 	}
 	s.boundary(t, "stmt-begin:"+kind)
 	s.stmtKind, s.stmtOpen, s.changed, s.logged = kind, true, false, false
+	s.heldBack = nil
 }
 
 func (s *VerifSched) StatementEnd() {
@@ -383,7 +404,13 @@ func (s *VerifSched) applyResume(t *schedThread) {
 	switch t.pending {
 	case "rlock":
 		s.readers[t.pstore]++
+		if t.store == nil {
+			s.readerDepth[t.pstore]++
+		}
 	case "runlock":
+		if t.store == nil && s.readerDepth[t.pstore] > 0 {
+			s.readerDepth[t.pstore]--
+		}
 		s.readers[t.pstore]--
 		if s.readers[t.pstore] < 0 {
 			s.problem("lock-model", "RUnlock without RLock by %s", t.name)
